@@ -21,6 +21,7 @@
 -/
 import Proofs.Lemmas.ModeCts
 import Proofs.Lemmas.ModeCounter
+import Proofs.Lemmas.ModeSeq
 import Proofs.Lemmas.ModeCtsSpec
 import Proofs.Lemmas.ModeCtsInv
 import Proofs.Lemmas.ModeToy
@@ -215,6 +216,119 @@ theorem ctr_rejects_counter (iv M : List Nat) (hiv : iv.length ≠ c.len) : ∃ 
   cases mkPad c .no with
   | error e => exact ⟨e, rfl⟩
   | ok p => exact ⟨"AssertionError", by simp [DefaultCounter.new, hiv]⟩
+
+/-! ### one CTR object used again and again
+
+  `Model.Mode.CTR.Obj` is what a `CTR` object keeps between calls (`self.counter` = bytesize / nonce / count0, and that
+  counter's running `count`); `Obj.step` is one public call — `enc`, `dec`, `counter.setup(nonce,count)`,
+  `obj.counter = DefaultCounter(obj.len[,iv])`, `counter.reset()`, `counter()` — and `Obj.run` a history of them.  The
+  correspondence stream (`ctrseq` lines) drives the real object and this machine through the same histories. -/
+
+/-- HISTORY INDEPENDENCE of the key stream: what `obj.enc(M)` / `obj.dec(M)` return depends on the cipher, on the counter
+    block in force (`obj.counter.nonce`, `obj.counter.count0`) and on M — on nothing else the object holds or has done.  Two
+    objects in ANY two states that agree on these two attributes answer alike -/
+theorem ctr_history_independent (c : BlockCipher) (o₁ o₂ : CTR.Obj) (M : List Nat)
+    (hn : o₁.counter.nonce = o₂.counter.nonce) (hc : o₁.counter.count0 = o₂.counter.count0) :
+    (o₁.enc c M).1 = (o₂.enc c M).1 ∧ (o₁.dec c M).1 = (o₂.dec c M).1 := by
+  have e := encWith_congr c o₁.counter o₂.counter hn hc M
+  exact ⟨by rw [obj_enc_fst, obj_enc_fst, e], by rw [obj_dec_fst, obj_dec_fst, e]⟩
+
+/-- … in particular after any two histories of public calls, from any two starting objects: if they leave the same counter
+    block in force, the next `enc(M)` (and `dec(M)`) of the two objects return the same -/
+theorem ctr_step_depends_only_on_counter (c : BlockCipher) (o₁ o₂ : CTR.Obj) (h₁ h₂ : List CTR.Step) (M : List Nat)
+    (hn : (CTR.Obj.run c o₁ h₁).2.counter.nonce = (CTR.Obj.run c o₂ h₂).2.counter.nonce)
+    (hc : (CTR.Obj.run c o₁ h₁).2.counter.count0 = (CTR.Obj.run c o₂ h₂).2.counter.count0) :
+    (CTR.Obj.run c o₁ (h₁ ++ [.enc M])).1.getLast? = (CTR.Obj.run c o₂ (h₂ ++ [.enc M])).1.getLast? ∧
+    (CTR.Obj.run c o₁ (h₁ ++ [.dec M])).1.getLast? = (CTR.Obj.run c o₂ (h₂ ++ [.dec M])).1.getLast? := by
+  obtain ⟨e1, e2⟩ := ctr_history_independent c _ _ M hn hc
+  simp only [run_append, CTR.Obj.run, CTR.Obj.step, List.getLast?_append, List.getLast?_singleton, Option.some_or, e1, e2,
+    and_self]
+
+/-- the route `obj.counter.setup(nonce,count)`: after ANY history on ANY object, setup and then `enc(M)` return what the
+    first call on a new object `CTR(cipher, nonce ‖ count)` returns (nonce = the first ⌊len/2⌋ bytes of the block) -/
+theorem ctr_after_setup (c : BlockCipher) (o : CTR.Obj) (hist : List CTR.Step) (nonce count M : List Nat)
+    (hn : nonce.length = c.len / 2) (hl : nonce.length + count.length = c.len) :
+    (CTR.Obj.run c o (hist ++ [.setup (some nonce) (some count), .enc M])).1.getLast?
+      = some (.bytes (CTR.enc c (some (nonce ++ count)) M)) := by
+  have hd : DefaultCounter.new c.len (some (nonce ++ count)) = .ok ⟨c.len, nonce, count⟩ := by
+    simp [DefaultCounter.new, hl, ← hn]
+  simp only [run_append, CTR.Obj.run, CTR.Obj.step, List.getLast?_append, List.getLast?_cons_cons, List.getLast?_singleton,
+    Option.some_or, obj_enc_fst, ← encWith_new c _ _ hd M]
+  rw [encWith_congr c ((CTR.Obj.run c o hist).2.counter.setup (some nonce) (some count)) ⟨c.len, nonce, count⟩ rfl rfl]
+
+/-- the route `obj.counter = DefaultCounter(obj.len[,iv])`: after ANY history, the assignment and then `enc(M)` return what
+    the first call on a new object `CTR(cipher[,iv])` returns -/
+theorem ctr_after_assign (c : BlockCipher) (o : CTR.Obj) (hist : List CTR.Step) (iv : Option (List Nat)) (M : List Nat)
+    (hiv : ∀ v, iv = some v → v.length = c.len) :
+    (CTR.Obj.run c o (hist ++ [.assign iv, .enc M])).1.getLast? = some (.bytes (CTR.enc c iv M)) := by
+  obtain ⟨d, hd⟩ : ∃ d, DefaultCounter.new c.len iv = .ok d := by
+    cases iv with
+    | none => exact ⟨_, rfl⟩
+    | some v => exact ⟨⟨c.len, v.take (c.len / 2), v.drop (c.len / 2)⟩, by simp [DefaultCounter.new, hiv v rfl]⟩
+  simp only [run_append, CTR.Obj.run, CTR.Obj.step, hd, List.getLast?_append, List.getLast?_cons_cons, List.getLast?_singleton,
+    Option.some_or, obj_enc_fst, encWith_new c _ _ hd M]
+
+/-- `enc`, `dec`, `counter.reset()` and `counter()` leave the counter block in force as it is -/
+theorem ctr_calls_keep_counter (c : BlockCipher) (o : CTR.Obj) (M : List Nat) :
+    (o.step c (.enc M)).2.counter = o.counter ∧ (o.step c (.dec M)).2.counter = o.counter ∧
+    (o.step c .reset).2.counter = o.counter ∧ (o.step c .call).2.counter = o.counter := by
+  have he : ∀ X, (o.enc c X).2.counter = o.counter := by
+    intro X
+    unfold CTR.Obj.enc
+    cases mkPad c .no with
+    | error e => rfl
+    | ok p =>
+      simp only
+      cases (ctrRun c o.counter o.counter.reset (iter p X).1).1 with
+      | error e => rfl
+      | ok C => cases (iter p X).2 <;> rfl
+  refine ⟨he M, ?_, rfl, ?_⟩
+  · simp only [CTR.Obj.step, CTR.Obj.dec]
+    cases (o.enc c M).1 with
+    | error e => exact he M
+    | ok P => by_cases hp : P.length ≠ M.length <;> simp [hp, he M]
+  · simp only [CTR.Obj.step]
+    cases o.count <;> rfl
+
+/-- SP 800-38A at every step: in ANY state of the object whose nonce ‖ count0 is a byte block of the cipher (count0 not
+    empty), `enc(M)` and `dec(M)` are CTR with T_j = nonce ‖ [(count0 + j) mod 2^(8·|count0|)] over the standard's cipher,
+    as long as M, and `dec` on the same object — after the `enc`, or after any calls that keep the counter — gives M back -/
+theorem ctr_obj_spec (h : Implements c k) (o : CTR.Obj) (hne : o.counter.count0 ≠ []) (hnb : Bytes o.counter.nonce)
+    (hcb : Bytes o.counter.count0) (hlen : o.counter.nonce.length + o.counter.count0.length = c.len) (M : List Nat) :
+    (o.enc c M).1 = .ok (Spec.Mode.ctrOf k o.counter.nonce o.counter.count0 M) ∧
+    (o.dec c M).1 = .ok (Spec.Mode.ctrOf k o.counter.nonce o.counter.count0 M) ∧
+    (Spec.Mode.ctrOf k o.counter.nonce o.counter.count0 M).length = M.length ∧
+    ((o.enc c M).2.dec c (Spec.Mode.ctrOf k o.counter.nonce o.counter.count0 M)).1 = .ok M := by
+  have hT : ∀ i, IsBlock c.len (Spec.Mode.counterBlockOf o.counter.nonce o.counter.count0 i) := fun i =>
+    modelT_eq_of o.counter hcb i ▸ modelT_isBlock o.counter c.len hnb hlen i
+  have hE : ∀ i, (k.E (Spec.Mode.counterBlockOf o.counter.nonce o.counter.count0 i)).length = k.len := fun i =>
+    h.len_eq ▸ (h.E_block _ (hT i)).1
+  have hpos : 0 < k.len := h.len_eq ▸ h.len_pos
+  have hli := fun X => ctrSpec_length_invol k _ hpos hE X
+  have hs : ∀ d, d = o.counter → ∀ X, encWith c d X = .ok (Spec.Mode.ctrOf k o.counter.nonce o.counter.count0 X) := by
+    intro d e X
+    subst e
+    exact encWith_spec h _ hne hnb hcb hlen X
+  have hdec : ∀ (o' : CTR.Obj), o'.counter = o.counter → ∀ X,
+      (o'.dec c X).1 = .ok (Spec.Mode.ctrOf k o.counter.nonce o.counter.count0 X) := by
+    intro o' e X
+    rw [obj_dec_fst, hs o'.counter e X]
+    simp only
+    rw [if_neg (by simpa [Spec.Mode.ctrOf] using (hli X).1)]
+  refine ⟨by rw [obj_enc_fst]; exact hs _ rfl M, hdec o rfl M, (hli M).1, ?_⟩
+  have hk : (o.enc c M).2.counter = o.counter := (ctr_calls_keep_counter c o M).1
+  rw [hdec _ hk]
+  exact congrArg Except.ok (hli M).2
+
+/-- the two readings of the initial counter block agree: for a block `iv` of the cipher, `Spec.Mode.ctr` (nonce = first
+    ⌊len/2⌋ bytes, as `CTR(cipher,iv)` splits it) is `Spec.Mode.ctrOf` with that split -/
+theorem ctr_eq_ctrOf (k : Spec.Mode.Cipher) (iv : List Nat) (hiv : iv.length = k.len) (M : List Nat) :
+    Spec.Mode.ctr k iv M = Spec.Mode.ctrOf k (iv.take (k.len / 2)) (iv.drop (k.len / 2)) M := by
+  have : Spec.Mode.counterBlock k.len iv = Spec.Mode.counterBlockOf (iv.take (k.len / 2)) (iv.drop (k.len / 2)) := by
+    funext j
+    simp [Spec.Mode.counterBlock, Spec.Mode.counterBlockOf, hiv]
+  unfold Spec.Mode.ctr Spec.Mode.ctrOf
+  rw [this]
 
 /-! ### the block ciphers of the library
 
@@ -449,6 +563,26 @@ example : LibPadDom 16 .x923 [1, 2, 3] ∧ LibPadDom 16 .none (List.replicate 32
   · intro v h; cases h; exact ⟨rfl, by unfold Bytes; decide⟩
   · intro h; cases h
   · intro v h; cases h; exact ⟨rfl, by unfold Bytes; decide⟩
+
+/-- one object through a history, computed: `CTR(rot)` with the default counter encrypts ABCDE, gets the counter block
+    07 07 ‖ ff ff by `setup`, encrypts ABCDE again (the running half wraps to 0000 for the second block) and is asked for the
+    next counter block: the second ciphertext differs from the first and is the one a NEW object `CTR(rot, 0707ffff)` returns -/
+example :
+    (CTR.Obj.run (Toy.rot 4 [1, 2, 3, 4]) ⟨⟨4, [0, 0], [0, 0]⟩, none⟩
+      [.enc [65, 66, 67, 68, 69], .setup (some [7, 7]) (some [255, 255]), .enc [65, 66, 67, 68, 69], .call]).1.map outBytes
+      = [some [67, 65, 71, 69, 71], none, some [68, 190, 184, 66, 64], some [7, 7, 0, 1]] ∧
+    okBytes (CTR.enc (Toy.rot 4 [1, 2, 3, 4]) (some [7, 7, 255, 255]) [65, 66, 67, 68, 69]) = some [68, 190, 184, 66, 64] := by
+  decide +kernel
+
+/-- the hypotheses of `ctr_obj_spec` hold in the state that history leaves (and `ctr_step_depends_only_on_counter` applies to
+    it and a new object with that counter block) -/
+example :
+    let o := (CTR.Obj.run (Toy.rot 4 [1, 2, 3, 4]) ⟨⟨4, [0, 0], [0, 0]⟩, none⟩
+      [.enc [65, 66, 67, 68, 69], .setup (some [7, 7]) (some [255, 255]), .enc [65, 66, 67, 68, 69], .call]).2
+    o.counter.count0 ≠ [] ∧ Bytes o.counter.nonce ∧ Bytes o.counter.count0 ∧
+    o.counter.nonce.length + o.counter.count0.length = (Toy.rot 4 [1, 2, 3, 4]).len ∧ o.count = some ⟨2, 16⟩ ∧
+    o.counter.nonce = (⟨4, [7, 7], [255, 255]⟩ : DefaultCounter).nonce := by
+  refine ⟨by decide +kernel, ?_, ?_, by decide +kernel, by decide +kernel, by decide +kernel⟩ <;> unfold Bytes <;> decide +kernel
 
 /-- a concrete permutation cipher on 8-byte blocks satisfying `Implements` (for every block length n ≥ 1 and n-byte key:
     `Proofs.Lemmas.ModeL.toy_rot_implements`) -/
